@@ -511,6 +511,8 @@ String File::simplifyPath(const String& path)
       break;
     start = end + 1;
   }
+  if(result.isEmpty() && startsWithSlash)
+    result.append('/'); // nothing is left of an absolute path but the root
   return result;
 }
 
